@@ -297,3 +297,24 @@ Proof.
     destruct (alleged_prefix_never_upgrades_ok di s c) as (_ & A & _). destruct (A F). split; assumption.
 Qed.
 
+
+(* ------------------------------------------------- typed entry points *)
+(* from_string_dirnode & co. hand the context on: whatever they return is what from_string
+   returns for the same string in the same context, so the alleged-prefix and deep-immutable
+   guarantees hold for them too *)
+Theorem typed_entry_points_agree_ok i di u c :
+  typed_from_string i di u = Ok c -> from_string di u = Ok c /\ provides i c = true.
+Proof.
+  unfold typed_from_string. destruct (from_string di u) as [c'| |]; try discriminate.
+  destruct (provides i c') eqn:P; [|discriminate]. intro H. injection H as <-. split; [reflexivity|exact P].
+Qed.
+
+Theorem typed_entry_points_never_upgrade_ok i di s c :
+  (typed_from_string i di (ro_prefix ++ s) = Ok c -> is_readonly c <> Some false)
+  /\ (typed_from_string i di (imm_prefix ++ s) = Ok c -> is_readonly c <> Some false /\ is_mutable c <> Some true)
+  /\ (typed_from_string i true s = Ok c -> is_readonly c <> Some false /\ is_mutable c <> Some true).
+Proof.
+  destruct (alleged_prefix_never_upgrades_ok di s c) as (A & B & _).
+  destruct (alleged_prefix_never_upgrades_ok true s c) as (_ & _ & C).
+  split; [|split]; intro H; apply typed_entry_points_agree_ok in H; destruct H as [H _]; auto.
+Qed.
